@@ -221,6 +221,25 @@ func genSplit(g *genCtx) {
 		}
 	}
 	if g.part == "limit" {
+		// a few parts with a multi-unit character straddling every cut INCLUDING the one after which only a little text
+		// follows (whether a part is the last one is not known before the earlier cuts have moved)
+		for _, p := range plans {
+			if !(p.proto == "smpp" && p.req == 99) {
+				continue
+			}
+			for _, nb := range []int{2, 3, 4} {
+				ma := map[int]rune{}
+				at := p.per - 1
+				for b := 1; b <= nb; b++ {
+					ma[at] = p.multi[(b+nb)%len(p.multi)]
+					at += p.per - 1
+				}
+				last := at - (p.per - 1) // position of the last escape
+				for _, d := range []int{2, 3, 4, 5, 9, 80, 152, 153} {
+					emit(Case{"k": "split", "proto": p.proto, "req": p.req, "ref": 4, "text": planText(r, p, last+d, ma)})
+				}
+			}
+		}
 		// many parts with a multi-unit character straddling EVERY cut of the naive plan (the shifts accumulate over
 		// 70 / 130 / 250 parts); packed GSM-7 only - the generic splitter's cuts are the recorded C14 finding
 		for _, p := range plans {
